@@ -266,6 +266,7 @@ def run_c16(mbi, case):
             faults['tie-order-permutation'] = 1
     maximal = [c for c in cliques if not any(set(c) < set(d) for d in cliques)]
     ncl = len(obj.cliques)
+    kept = []
     for ci, call in enumerate(case['calls']):
         r = random.Random(call['seed'])
         total = call['total']
@@ -313,6 +314,15 @@ def run_c16(mbi, case):
                 break
         if bad:
             break
+        for (ck, old_mu, old_dg) in kept:
+            now = [core.arr_digest_exact(old_mu[c2].values) for c2 in sorted(old_mu)]
+            if now != old_dg:
+                viol.append(Violation('c16-result-mutated', 'c16-result-mutated:' + kind, 'the pseudo-marginals returned by call #%d changed when call #%d ran on the same oracle object (%s)' % (ck, ci, tag)).as_dict())
+                bad = True
+                break
+        if bad:
+            break
+        kept.append((ci, mu, [core.arr_digest_exact(mu[c2].values) for c2 in sorted(mu)]))
         if case['structure'] == 'acyclic' and call['sweeps'] == 'enough':
             logp = refmodel.joint_logp(attrs, sizes, pots_in)
             for cl in obj.cliques:
